@@ -44,7 +44,7 @@ MANIFEST = {
     "design_ref": "DESIGN.md section 3 (C10)",
 }
 _CORPUS: list[str] | None = None
-C10_MISTAKES = gen.MISTAKES[:14] + gen.MISTAKES[-3:]
+C10_MISTAKES = gen.MISTAKES
 
 
 # ------------------------------------------------------------------------- child side
